@@ -96,6 +96,9 @@ pub fn gen_sjis(rng: &mut Rng, max_chars: usize) -> String {
     if !cfg!(miri) && max_chars >= 4 && rng.chance(1, 48) {
         return gen_sjis_boundary(rng);
     }
+    if max_chars >= 2 && rng.chance(1, 40) {
+        return gen_sjis_utf8_lookalike(rng, max_chars);
+    }
     let p = pools();
     let n = rng.range(0, max_chars);
     let style = rng.below(7);
@@ -133,7 +136,38 @@ pub fn gen_sjis(rng: &mut Rng, max_chars: usize) -> String {
             s.push(*rng.pick(pool));
         }
     }
+    if !s.is_empty() && rng.chance(1, 40) {
+        // ends in a C0 control character / DEL (single bytes 01..1F, 7F: in the domain like any other)
+        s.pop();
+        s.push(*rng.pick(&['\u{1}', '\u{2}', '\t', '\u{1f}', '\u{7f}']));
+        if s.chars().count() >= 2 && rng.chance(1, 3) {
+            let last = s.pop().unwrap();
+            s.pop();
+            s.push(last);
+            s.push(last);
+        }
+    }
     debug_assert!(sjis_ok(&s));
+    s
+}
+
+/// Shift-JIS-domain strings whose encoded bytes are, as a whole, also well-formed UTF-8 with a
+/// multi-byte sequence: pairs of half-width katakana <C2..DF><A1..BF> between ASCII characters.
+pub fn gen_sjis_utf8_lookalike(rng: &mut Rng, max_chars: usize) -> String {
+    let p = pools();
+    let mut s = String::new();
+    let pairs = rng.range(1, (max_chars / 2).max(1).min(4));
+    for _ in 0..pairs {
+        if s.chars().count() + 2 < max_chars && rng.bool() {
+            s.push(*rng.pick(&p.ascii));
+        }
+        let lead = 0xff61 + (rng.range(0xc2, 0xdf) as u32 - 0xa1);
+        let trail = 0xff61 + (rng.range(0xa1, 0xbf) as u32 - 0xa1);
+        s.push(char::from_u32(lead).unwrap());
+        s.push(char::from_u32(trail).unwrap());
+    }
+    debug_assert!(sjis_ok(&s));
+    debug_assert!(std::str::from_utf8(&sjis_encode(&s).unwrap()).is_ok());
     s
 }
 
@@ -261,7 +295,7 @@ pub fn gen_unicode(rng: &mut Rng, max_chars: usize) -> String {
     const SPECIAL: &[u32] = &[
         0xFEFF, 0xFFFE, 0xFFFF, 0xBBEF, 0x00BF, 0xFFFD, 0x0301, 0x200D, 0x1F600, 0x10000,
         0x10FFFF, 0xD7FF, 0xE000, 0x0001, 0x007F, 0x0080, 0x00FF, 0x0100, 0x3042, 0x000A, 0x000D,
-        0x005C,
+        0x005C, 0x2028, 0x2029, 0x0085, 0x000B, 0x000C, 0x0009, 0x001F,
     ];
     for i in 0..n {
         let c = match rng.below(8) {
@@ -285,6 +319,16 @@ pub fn gen_unicode(rng: &mut Rng, max_chars: usize) -> String {
     }
     s
 }
+
+/// Pairs of distinct strings with equal hashes: the first under std's DefaultHasher (SipHash-1-3 with
+/// zero keys, `str` hashing), the others under FxHash (rustc-hash, a dependency of the crate).
+pub const COLLIDING_PAIRS: [(&str, &str); 5] = [
+    ("li0irn45cicua", "3gl5njuk0ie2k"),
+    ("MID_AAAAAAAAAAAA", "MID_AAAIZAAAAAAA"),
+    ("MID_AAABDAAAAAAA", "MID_AAAJYAAAAAAA"),
+    ("MID_AAACAAAAAAAA", "MID_AAAKTAAAAAAA"),
+    ("MID_00319", "MID_00392"),
+];
 
 /// Text the Shift-JIS encoder cannot express at all (it reports an error rather than folding it):
 /// a library call that must encode it has to fail; if it succeeds, the text must still come back
